@@ -10,6 +10,8 @@ RULE = ("draw_iter streams aimed at the batcher's flush points: runs of length 1
 TRUSTED = ["Oracle/Controller.v, Oracle/DrawSpec.v"]
 ASSUMPTIONS = ["finite, side-effect-free pixel iterators (lists)"]
 PER_SHARD = 30
+CASE_TYPE = "(lcase * lout)"
+IMPORTS = "Require Import Corr.L2 Corr.DrawL."
 
 
 def shaped_stream(rng, lw, lh, cmax, rowcap, blockcap):
@@ -88,9 +90,24 @@ def gen(rng, tier, info, ifaces=(0, 1, 2, 7)):
             pc["ops"].append((-1, ("di", ps2)))
         pc["tags"] = ["batch" if pc["batch"] else "nobatch", pc["md"], "len<=50" if len(ps) <= 50 else "len<=200" if len(ps) <= 200 else "len>200"]
         pc["nontrivial"] = nontriv and len(ps) >= 2
-        cases.append(vlib.pcase(pc))
+        cases.append(drawgen.wrap_l(vlib.pcase(pc), False))
+    # batched streams all the way down to the pins: runs and blocks longer than one SPI buffer load (buffers that are
+    # not a multiple of the pixel size), parallel buses; the decoded final picture must be the per-pixel one
+    for k in range(n // 5):
+        pc, m, lw, lh, cmax = drawgen.l2_config(rng, info)
+        pc["batch"] = rng.chance(4, 5)
+        ps, nontriv = shaped_stream(rng, lw, lh, cmax, rowcap, blockcap)
+        if rng.chance(1, 2):       # a full-width run per row: longer than a small SPI buffer holds
+            y = drawgen.edge_coord(rng, lh)
+            ps += [(i, y, drawgen.color(rng, cmax)) for i in range(lw)]
+            if lh > 1:
+                ps += [(i, (y + 1) % lh, drawgen.color(rng, cmax)) for i in range(lw)]
+        pc["ops"] = [(-1, ("di", ps))]
+        pc["tags"] = ["iface%d" % pc["iface"], "batch" if pc["batch"] else "nobatch"]
+        pc["nontrivial"] = len(ps) >= 3
+        cases.append(drawgen.wrap_l(vlib.pcase(pc), True))
     return cases
 
 
-def shrink(case):
-    return drawgen.shrink_prog(case)
+wrap_impl = drawgen.wrap_impl_l
+shrink = drawgen.shrink_l
